@@ -12,6 +12,7 @@ package c13
 // Nothing here is a hard coded function name.
 
 import (
+	"encoding/json"
 	"fmt"
 	"go/ast"
 	"go/parser"
@@ -49,6 +50,8 @@ type fnInfo struct {
 	Keys []string
 	// Group is the format/group name for generated decode functions
 	Group string
+	// ReachesOptions: one of its parameters is handed (transitively) to options/1
+	ReachesOptions bool
 }
 
 type catalog struct {
@@ -340,6 +343,51 @@ func buildCatalog(s *fqrun.Session, repo string) (*catalog, error) {
 		return a.Key.Arity < b.Key.Arity
 	})
 	sort.Strings(c.sources)
+	for _, fi := range c.public {
+		fi.ReachesOptions = reachesOptions(c, fi)
+	}
+	return c, nil
+}
+
+// The catalog is the same for every process of a run (it is a function of the
+// tree under test); a worker that re-executes itself after a watchdog kill reloads
+// it from the run's scratch directory instead of recomputing it.
+type catalogFile struct {
+	Public  []*fnInfo
+	Go      int
+	Jq      int
+	Fmt     int
+	Sources []string
+}
+
+func loadOrBuildCatalog(cacheDir string, repo string) (*catalog, error) {
+	path := ""
+	if cacheDir != "" {
+		path = filepath.Join(cacheDir, "c13-catalog.json")
+		if b, err := os.ReadFile(path); err == nil {
+			var cf catalogFile
+			if json.Unmarshal(b, &cf) == nil && len(cf.Public) > 0 {
+				return &catalog{public: cf.Public, goCount: cf.Go, jqCount: cf.Jq, fmtCount: cf.Fmt, sources: cf.Sources}, nil
+			}
+		}
+	}
+	s, err := fqrun.NewSession(nil)
+	if err != nil {
+		return nil, err
+	}
+	defer s.Close()
+	c, err := buildCatalog(s, repo)
+	if err != nil {
+		return nil, err
+	}
+	if path != "" {
+		if b, err := json.Marshal(catalogFile{Public: c.public, Go: c.goCount, Jq: c.jqCount, Fmt: c.fmtCount, Sources: c.sources}); err == nil {
+			tmp := fmt.Sprintf("%s.%d", path, os.Getpid())
+			if os.WriteFile(tmp, b, 0o644) == nil {
+				_ = os.Rename(tmp, path)
+			}
+		}
+	}
 	return c, nil
 }
 
